@@ -381,6 +381,63 @@ func families(prop string, t gfam.Tier) []*gfam.Grammar {
 	return out
 }
 
+// runPumped: long flat inputs through choice points (size-triggered behaviour such as flushing deferred
+// captures after N pending ones must not exist): the AST still equals the reference derivation.
+func runPumped(w *hx.Worker, prop string) {
+	id := func() *g.Node { return g.Grp(gfam.CapMark(g.Ref("Ident")), '*') }
+	bodies := []*g.Node{
+		g.Alt(g.Seq(id(), g.Lit(";")), g.Seq(id(), g.Lit("1"))),
+		g.Seq(g.Look(g.Seq(id(), g.Lit(";")), '!'), id(), g.Lit("1")),
+		g.Seq(g.Grp(g.Seq(id(), g.Lit(";")), '?'), id(), g.Lit("1")),
+		g.Seq(g.Grp(g.Alt(g.Seq(gfam.CapMark(g.Ref("Ident")), g.Lit(";")), gfam.CapMark(g.Ref("Ident"))), '*'), g.Lit("1")),
+		g.Seq(g.Neg(g.Seq(id(), g.Lit(";"))), id(), g.Lit("1")),
+	}
+	for bi, b := range bodies {
+		gr := &gfam.Grammar{Family: "pumped", Root: gfam.AssignOwn("G", b), Alphabet: "a", MaxLen: 0}
+		for _, k := range []int{participle.MaxLookahead, -1, 1} {
+			p, err, pan := buildParser(gr, g.TypeCache{}, k)
+			if err != nil || pan != "" {
+				w.Violate(hx.Violation{Key: caseKey(gr, "", "build"), Class: "build-failed", Detail: map[string]any{"err": fmt.Sprint(err), "panic": pan}})
+				continue
+			}
+			for _, n := range []int{1, 2, 100, 1000, 1023, 1024, 1025, 2048, 4097} {
+				in := strings.Repeat("a", n) + "1"
+				cfg := cfgStr(k, false)
+				key := fmt.Sprintf("%s :: in=a^%d 1 :: %s", gr.Key(), n, cfg)
+				w.Count("evaluations", 1)
+				toks, lerr := p.Lex("", strings.NewReader(in))
+				if lerr != nil {
+					continue
+				}
+				ir := implParse(p, in, false)
+				env := g.NewEnv(toks, lexDef.Symbols(), nil, nil, k, false)
+				out := env.Parse(gr.Root, true)
+				w.Count("transitions", env.Steps)
+				w.Count("traces_validated_against_impl", 1)
+				if ir.panicked != "" {
+					w.Violate(hx.Violation{Key: key, Class: "panic", Detail: map[string]any{"panic": ir.panicked}})
+					continue
+				}
+				if ir.ok != out.Accept {
+					w.Violate(hx.Violation{Key: key, Class: map[bool]string{true: "impl-accepts-model-rejects", false: "impl-rejects-model-accepts"}[ir.ok], Detail: map[string]any{"impl_error": fmt.Sprint(ir.err)}})
+					continue
+				}
+				if out.Accept {
+					if d := env.Compare(out.Tree, ir.v, g.CompareOpts{}); d != "" {
+						if len(d) > 300 {
+							d = d[:300]
+						}
+						w.Violate(hx.Violation{Key: key, Class: "ast-differs", Detail: map[string]any{"diff": d}})
+						continue
+					}
+				}
+				w.DistinctS(fmt.Sprintf("pumped%d/%d/%d/%v", bi, k, n, out.Accept))
+			}
+		}
+	}
+	_ = prop
+}
+
 // runLongBranch: a branch that fails only after more than MaxLookahead tokens; finite lookaheads beyond
 // that and every "unlimited" value must agree.
 type longG struct {
@@ -435,7 +492,7 @@ func plan(c *hx.Ctx) *hx.Plan {
 		famCount[gr.Family]++
 	}
 	extra := 0
-	if c.Prop == "C13" {
+	if c.Prop == "C13" || c.Prop == "C01" || c.Prop == "C02" {
 		extra = 1
 	}
 	return &hx.Plan{
@@ -446,11 +503,15 @@ func plan(c *hx.Ctx) *hx.Plan {
 				runLongBranch(w)
 				return
 			}
+			if (c.Prop == "C01" || c.Prop == "C02") && i == len(grs) {
+				runPumped(w, c.Prop)
+				return
+			}
 			(&explorer{prop: c.Prop, w: w, tc: tc, extendedChain: i%3 == 0}).runGrammar(grs[i], nil)
 		},
 		Describe: func(i int) string {
 			if i >= len(grs) {
-				return "long-branch"
+				return "long-branch / pumped"
 			}
 			return grs[i].Key()
 		},
@@ -465,6 +526,22 @@ func plan(c *hx.Ctx) *hx.Plan {
 }
 
 func replay(c *hx.Ctx, key string) []hx.Violation {
+	if strings.HasPrefix(key, "pumped ") {
+		w := hx.NewReplayWorker()
+		runPumped(w, c.Prop)
+		var out []hx.Violation
+		for _, v := range w.Violations() {
+			if v.Key == key {
+				out = append(out, v)
+			}
+		}
+		return out
+	}
+	if strings.HasPrefix(key, "long-branch") {
+		w := hx.NewReplayWorker()
+		runLongBranch(w)
+		return w.Violations()
+	}
 	parts := strings.Split(key, " :: ")
 	if len(parts) < 3 {
 		return []hx.Violation{{Key: key, Class: "bad-replay-key"}}
@@ -485,7 +562,7 @@ func replay(c *hx.Ctx, key string) []hx.Violation {
 
 func main() {
 	g.IdentType = lexDef.Symbols()["Ident"]
-	hx.Main(&hx.Spec{Engine: "gramx", JobTimeout: 30 * time.Second, Levels: map[string]string{
+	hx.Main(&hx.Spec{Engine: "gramx", JobTimeout: 90 * time.Second, Levels: map[string]string{
 		"C01": "model_checking", "C02": "model_checking", "C10": "model_checking", "C11": "model_checking", "C13": "exploration",
 	}, Plan: plan, Replay: replay})
 }
